@@ -25,8 +25,11 @@ func c04GenScen(h *H) *c04Scen {
 		sc.script = append(sc.script, c04SP{avail: []int{0, 1, 1, r.Intn(nw + 1)}[r.Intn(4)], kind: kind, cb: cb})
 	}
 	cbres := func() string {
-		if r.Intn(8) == 0 {
+		switch r.Intn(16) {
+		case 0, 1:
 			return "err"
+		case 2:
+			return "errx" // fails with an error that wraps a *ch.Exception of another query
 		}
 		return "ok"
 	}
